@@ -20,19 +20,19 @@ use steel::steel_vm::engine::Engine;
 pub struct C02;
 
 #[derive(Clone, Copy, Debug, PartialEq)]
-struct Config {
-    jit: bool,
-    inline: bool,
-    inline_rec: bool,
-    lifting_off: bool,
-    module_inline: bool,
+pub(crate) struct Config {
+    pub jit: bool,
+    pub inline: bool,
+    pub inline_rec: bool,
+    pub lifting_off: bool,
+    pub module_inline: bool,
 }
 
 impl Config {
-    fn from_bits(b: u64) -> Config {
+    pub(crate) fn from_bits(b: u64) -> Config {
         Config { jit: b & 1 != 0, inline: b & 2 != 0, inline_rec: b & 4 != 0, lifting_off: b & 8 != 0, module_inline: b & 16 != 0 }
     }
-    fn name(&self) -> String {
+    pub(crate) fn name(&self) -> String {
         format!(
             "jit={} inline={} inline_recursive={} closure_lifting={} module_inline={}",
             self.jit as u8, self.inline as u8, self.inline_rec as u8, !self.lifting_off as u8, self.module_inline as u8
@@ -122,7 +122,7 @@ fn transcript(engine: &mut Engine, evals: &[String]) -> Vec<String> {
 const CONFIG_TIMEOUT_S: u32 = 40;
 
 /// Run the history under `cfg` in a forked grandchild and return its transcript.
-fn run_config(cfg: Config, evals: &[String], fresh_engine: bool, spec: &Spec) -> Result<Vec<String>, String> {
+pub(crate) fn run_config(cfg: Config, evals: &[String], fresh_engine: bool, spec: &Spec) -> Result<Vec<String>, String> {
     let mut fds = [0i32; 2];
     unsafe {
         if libc::pipe(fds.as_mut_ptr()) != 0 {
